@@ -1407,7 +1407,7 @@ def ens_stream(seed, shard, ncases, tier, hist, findings, samples, ks=None):
 # shard / main / replay
 # =====================================================================================================
 BUDGET = {"quick": {"cfg": 90, "perm": 8, "live": 4, "map": 12, "ens": 4},
-          "thorough": {"cfg": 500, "perm": 6, "live": 40, "map": 70, "ens": 28}}
+          "thorough": {"cfg": 500, "perm": 6, "live": 20, "map": 70, "ens": 28}}
 
 
 def run_shard(pid, seed, shard, ncases, tier, extra):
